@@ -118,6 +118,8 @@ type smRunner struct {
 	hands    int         // hands started (successful Next) in this history
 	hopRng   *Rng        // generator runs: now and then the seat manager is saved and restored (ApplyStates) before an operation
 	hops     int
+	shadow   *sm.SeatManager // a second seat manager restored from the SAME snapshot as the one under test at the last hop; nobody operates on it
+	shadowAt *smSnap         // what it looked like then
 }
 
 func (r *smRunner) newSM(max int) {
@@ -133,6 +135,7 @@ func (r *smRunner) newSM(max int) {
 	r.undisc = false
 	r.freePids = r.freePids[:0]
 	r.hands = 0
+	r.shadow = nil
 	r.o.Emit(fmt.Sprintf("sm new %d", max), smObs(r.m, "none", "-"))
 	r.o.Count(fmt.Sprintf("sm.max.%d", max))
 	// O13 (DESIGN §11): the query GetPlayableSeats() on a table without a button — outside the alphabet (I12), counted only
@@ -261,6 +264,14 @@ func (r *smRunner) hop() {
 		r.o.Emit("sm hop", "sm err=panic")
 		r.V("C18", "no_panic", "ApplyStates panicked on a snapshot of the seat manager's own state")
 		return
+	}
+	// the same snapshot restored into a second manager that nobody touches afterwards: whatever happens to the one under test,
+	// this one has seen no join and no leave (a restore that keeps the snapshot's seat objects would couple the two)
+	r.shadow = sm.NewSeatManager(r.max)
+	if _, p2 := safely(func() error { return r.shadow.ApplyStates(st) }); p2 {
+		r.shadow = nil
+	} else {
+		r.shadowAt = snapSM(r.shadow)
 	}
 	r.m = target
 	post := snapSM(r.m)
@@ -408,6 +419,18 @@ func (r *smRunner) exec(f []string) {
 	r.o.Count("sm.err." + smErrName(err))
 	post := snapSM(r.m)
 	r.monitor(f, pre, post, err, ret)
+	if r.shadow != nil {
+		now := snapSM(r.shadow)
+		same := len(now.seats) == len(r.shadowAt.seats) && now.dealer == r.shadowAt.dealer && now.sb == r.shadowAt.sb && now.bb == r.shadowAt.bb
+		for i := 0; same && i < len(now.seats); i++ {
+			same = now.seats[i] == r.shadowAt.seats[i]
+		}
+		if !same {
+			r.V("C18", "count_eq_joins_minus_leaves", fmt.Sprintf("a seat manager restored from the same snapshot, on which no operation was made, changed after %v on the other one: %+v -> %+v (the restore shares the snapshot's seats)", f, r.shadowAt, now))
+			r.V("C08", "restore_keeps_positions", "a seat manager restored from the same snapshot changed although nobody operated on it")
+			r.shadow = nil
+		}
+	}
 	if f[0] == "next" {
 		r.playableList(post, err == nil)
 	}
